@@ -185,4 +185,6 @@ def run_all(chk, fsets, tier):
     rt.check_encode_tables(chk, F, rule="L1.write_len", len_rule="L1.len")
     run_len_equals_return(chk, F)
     run_dispatch(chk, F)
+    import rules_ivl
+    rules_ivl.run_c06(chk, F, fsets[0], tier)
     chk.trust("rustc MIR/const evaluation, exporter, refcodes.py, the primitive contracts write_bits -> n and write_unary -> v+1 (verified on the writers by C01.W5)")
